@@ -1,4 +1,5 @@
 import SdbModel.Lemmas.Serial
+import SdbModel.Lemmas.LockOrder
 import SdbModel.Generated.Protocol
 
 /-!
@@ -216,6 +217,17 @@ def Conc.Protocol.rootMutexLeaf (P : Conc.Protocol) : Bool :=
 theorem C10_root_mutex_is_leaf : Gen.protocol.rootMutexLeaf = true := by decide
 
 theorem C10_protocol_order_facts : Gen.protocol.serialWF = true := by decide
+
+/-- **any order, with duplicates**: the order in which a writer of `Model.Conc`
+    (de-duplicate, then sort by mutex sequence number — the two steps the
+    extractor found in `WriteTxn` / `SortableMutexes.Lock`) takes its table locks is
+    strictly ascending and covers exactly the requested tables, whatever list the
+    caller passed; so every such writer is a legal thread of `Model.Serial` -/
+theorem C10_any_request_order_is_ascending (tabs : List Nat) :
+    Ascending (Conc.sortNat (Conc.dedup tabs)) ∧ (∀ y, y ∈ Conc.sortNat (Conc.dedup tabs) ↔ y ∈ tabs) ∧
+    (∀ s : State, Step s { s with txns := s.txns ++ [{ tabs := Conc.sortNat (Conc.dedup tabs) }] }) := by
+  obtain ⟨h1, h2⟩ := Conc.lockOrder_ascending tabs
+  exact ⟨h1, h2, fun s => Step.spawn s { tabs := Conc.sortNat (Conc.dedup tabs) } h1 rfl rfl⟩
 
 /-! ## non-vacuity: a reachable state with a waiting thread -/
 example : ∃ s, Reachable s ∧ ∃ (i : Nat) (t : Txn), s.txns[i]? = some t ∧ t.phase ≠ .done ∧ s.owner 0 = some 0 := by
